@@ -47,14 +47,14 @@ def run(tier, replay=None):
 
     # ---- (S) TLC enumerates the families and computes the verdicts --------------------------------------------
     variants = sg.gen_variants(seed() * 1000 + 13, 36 if quick else 300, rng)
-    cases = []            # (label, family, program JSON, verdict, why, kind)
+    cases = []            # (label, family, program JSON (generator family only), verdict, why, kind, rendered text)
     def add(js, gen_offset=None):
         for j in js:
             if j["fam"] == "gen":
                 lab, kind, P = variants[gen_offset + j["a"] - 1]
-                cases.append(("gen:" + lab, "gen", P, j["verdict"], j["why"], kind))
+                cases.append(("gen:" + lab, "gen", P, j["verdict"], j["why"], kind, render.program(P)))
             else:
-                cases.append((label_of(j), j["fam"], j["prog"], j["verdict"], j["why"], j["fam"]))
+                cases.append((label_of(j), j["fam"], None, j["verdict"], j["why"], j["fam"], render.program(j["prog"])))
     if quick:
         # which graphs of the 4^9 are looked at is the glue's choice (seeded): half uniform (almost all have a cycle through a
         # strict edge), half sparse (each edge absent with probability 0.6) so that both verdicts are well represented
@@ -83,7 +83,7 @@ def run(tier, replay=None):
     # ---- (T) run every distinct program text, validate trace + status + expected verdict with TLC ----------------
     by_text = {}
     for c in cases:
-        by_text.setdefault(render.program(c[2]), c)
+        by_text.setdefault(c[6], c)
     texts = list(by_text)
     rundir = os.path.join(wd, "runs")
     def one(i):
@@ -94,6 +94,7 @@ def run(tier, replay=None):
             facts = os.path.join(d, "facts"); render.write_facts(c[2], {}, facts)
         r = dt.run_souffle(c[0], d, text=text, facts=facts, expect=c[3], args=("--no-preprocessor",))
         shutil.rmtree(d, ignore_errors=True)
+        r.stdout = ""; r.stderr = r.stderr[-3000:]
         return r
     import concurrent.futures as cf
     with cf.ThreadPoolExecutor(NCPU) as ex:
@@ -101,6 +102,8 @@ def run(tier, replay=None):
     judged = []
     case_by_label = {c[0]: c for c in by_text.values()}
     for r in runs:
+        if r.infra:
+            res.infra_errors.append("souffle could not be started for %s: %s" % (r.label, r.stderr[-200:])); continue
         if r.rc not in (0, 1) and known_crash(res, "C13", r.stderr):
             continue
         c = case_by_label[r.label]
